@@ -8,7 +8,7 @@ Definition case := (prog * obs * option (list (nat * nat)))%type.
 
 Fixpoint size_op (o : op) {struct o} : nat :=
   let fix sum (l : list op) : nat := match l with [] => 0 | o' :: l' => size_op o' + sum l' end in
-  match o with OLock _ b => S (sum b) | OCatch b => S (sum b) | _ => 1 end.
+  match o with OLock _ b => S (sum b) | OCatch b => S (sum b) | OBlock _ _ b => S (sum b) | _ => 1 end.
 Definition size_prog (p : prog) : nat := fold_right (fun l a => fold_right (fun o b => size_op o + b) 0 l + a) 0 (p_code p).
 Definition small (p : prog) : bool := Nat.leb (size_prog p) 30.
 Definition explore_fuel : nat := 3000.
